@@ -22,7 +22,7 @@ THEOREMS = ["Yardl.C18.load_ok_sound", "Yardl.C18.every_reachable_package_loaded
             "Yardl.C18.two_cycle_rejected", "Yardl.C18.self_import_rejected",
             "Yardl.C18.cycle_through_second_import_rejected", "Yardl.C18.diamond_accepted",
             "Yardl.C18.conflict_rejected", "Yardl.C18.deep_chain_rejected", "Yardl.C18.order_dependence_at_limit",
-            "Yardl.C18.every_importer_references_all_its_imports"]
+            "Yardl.C18.every_importer_references_all_its_imports", "Yardl.C18.namespaces_are_listed_imports_first"]
 
 
 def spec(world, root, limit):
